@@ -25,6 +25,8 @@ for d in sorted(SRC.glob("C*/m*")):
     shutil.copy(d / "patch.diff", out / "patch.diff")
     shutil.copy(d / "demo.py", out / "demo.py")
     meta["verif_result"] = {k: res.get(k) for k in ("check_rc", "detected_as", "replay_kind", "check_wall_s", "check_lines", "at")}
+    if res.get("also"):
+        meta["verif_result"]["also"] = res["also"]
     if sup:
         meta["verif_result"]["superseded"] = sup
     meta["verif_confirmation"] = {
